@@ -156,6 +156,23 @@ Theorem C10_passthrough_stale_refuted :
 Proof. exact passthrough_stale_refuted. Qed.
 Print Assumptions C10_passthrough_stale_refuted.
 
+(* ---------- the file operations of the manager ---------- *)
+
+(* After ANY history of writes and deletes through the manager (in particular add -> delete -> re-add of
+   identical bytes, and change -> change back), a write leaves exactly the written bytes at the path of
+   its family, a delete leaves nothing there, and no other path changes. *)
+Theorem C10_manager_write_delete_exact :
+  forall (ops : list mop) (o : mop),
+    let m := mrun ops [] in
+    let m' := mstep o m in
+    match o with
+    | MWrite f n c => lookup (mpath f n) m' = Some c
+    | MDel f n => lookup (mpath f n) m' = None
+    end /\
+    forall p, p <> match o with MWrite f n _ => mpath f n | MDel f n => mpath f n end -> lookup p m' = lookup p m.
+Proof. exact manager_write_delete_exact. Qed.
+Print Assumptions C10_manager_write_delete_exact.
+
 (* ---------- the decidable check evaluated on the implementation's listings ---------- *)
 
 Theorem C10_spec_ok_meaning :
